@@ -8,3 +8,5 @@ type HSScn struct {
 type HSRun struct{}
 
 func runHS(s *Sim, scn *Scenario, run *Run) {}
+
+func shrinkHS(s *Scenario) []*Scenario { return nil }
